@@ -15,6 +15,7 @@ Decided
   P1  the monotonicity test raises before any write effect
   +   the blanking of unused templates: only templates that are NaN on EVERY sample and channel (mask taken on the whole array) are zeroed
   +   F2: the try block that loads the inverse whitening matrix does not raise by itself (its handler writes the file: it must run only when the file is absent)
+  +   U1: samples converted to seconds by `/ sample_rate` never come from the ALF samples file (an ALF dataset keeps its stored seconds)
 Not decided: equality of the loaded values with the file contents, dtype assertions, exec of params.py.
 """
 import ast
@@ -288,6 +289,18 @@ def u1_units(ctx):
             if pth:
                 rd_t = a
                 P.m('V_times = self._read_array(V_tpath)', a, stmt=True)
+    # "for ALF the stored seconds": only the KiloSort file (spike_times.npy, in samples) is converted by the division; samples read from the ALF file
+    # spikes.samples*.npy come with their own stored seconds (spikes.times*.npy), which must be what is loaded
+    PD = Pat(fi)
+    dv = PD.stmt('V_t = V_s / self.sample_rate')
+    if dv is not None:
+        sdef = [a_ for a_ in fi.nodes(ast.Assign) if any(isinstance(t_, ast.Name) and t_.id == PD.name('V_s') for t_ in a_.targets) and isinstance(a_.value, ast.Call) and
+                q.method_name(a_.value) == '_read_array' and a_.value.args and isinstance(a_.value.args[0], ast.Name)]
+        pv_ = sdef[0].value.args[0].id if sdef else None
+        alf_src = [a_ for a_ in fi.nodes(ast.Assign) if pv_ and any(isinstance(t_, ast.Name) and t_.id == pv_ for t_ in a_.targets) and 'spikes.samples' in unparse(a_.value)]
+        if alf_src:
+            ctx.violated('C04.U1', fi, alf_src[0], 'the samples converted to seconds by `/ sample_rate` can come from the ALF file (`%s`): an ALF dataset that stores both samples and seconds is '
+                         'loaded with recomputed seconds instead of the stored ones' % unparse(alf_src[0])[:80])
     if rd_s is None or rd_t is None:
         ctx.undecided('C04.U1', fi, 'the reads of spike_times.npy (samples) and spikes.times*.npy (seconds) were not both recognised')
     else:
